@@ -27,7 +27,43 @@ CLAIMED["C16"] = ("E2 mir-smt", "4 C16",
     "symbolic start state and a symbolic schedule of 2 threads (3 threads / 2x2 calls thorough), that no MIR overflow assert fires and no "
     "two results collide; plus an inductive step and an injectivity window of 2^52 ranks for sequential histories.",
     "MIR->SMT symbolic execution + z3 BMC over symbolic schedules; counterexample schedules replayed natively through yield-point hooks")
+E1T = "kani+cbmc bounded model checking per shape, counterexamples replayed natively"
+CLAIMED.update({
+    "C01": ("E1 kani-cbmc", "9.3 C01", "Bounded model checking of the round trip as a chain per shape: encode(t) is byte-identical to an independent reference "
+            "encoding of the value t denotes; decode(reference bytes) is Ok and denotes the value; re-encoding gives the same bytes. All scalar "
+            "fields and bytes symbolic (all i64 split by width class, all float bit patterns, bigs of 1..9 digits, atoms/binaries/bit-strings "
+            "of 0..2 bytes, identifiers, export funs, depth-1 tuple/list/improper list).", E1T),
+    "C02": ("E1 kani-cbmc", "9.3 C02", "Per-tag length-field harnesses: for every tag with a wire-supplied length/arity/count the field bytes are fully symbolic "
+            "(incl. 2^32-1) with little data behind; decides no panic and no single allocation request above 64*len+4096 bytes, for the owned and "
+            "zero-copy entry points and the fragment-header entry points.", E1T + "; allocation budget assertion in the allocator model"),
+    "C03": ("E1 kani-cbmc", "9.3 C03", "For each admissible alternative encoding (non-minimal integer widths, leading-zero bignums, LARGE_BIG, four atom tags incl. "
+            "Latin-1, LARGE_TUPLE, PID_EXT, PORT_EXT/NEW_PORT_EXT, NEW_REFERENCE_EXT, STRING_EXT, LOCAL_EXT) the reference emits the bytes from symbolic "
+            "field values and the real decoder must return a term denoting exactly that value; one trailing byte must be reported.", E1T),
+    "C04": ("E1 kani-cbmc", "9.3 C04", "Bounded model checking of the HandshakeStateMachine API as a transition system: concrete call scripts (quick 14, thorough all "
+            "sequences over challenge/reply/ack/disconnect up to length 4) with every message byte, both flag sets, creation and every challenge "
+            "symbolic; Connected only after an ack equal to 'a'++D(our challenge of this handshake, cookie); flags = intersection; emitted layouts.", E1T),
+    "C05": ("E1 kani-cbmc", "9.3 C05", "read_framed/write_framed futures polled by hand over a harness reader/writer: every composition of the byte stream into reads "
+            "(enumerated inside the harness) with symbolic payload bytes returns the messages intact; one-shot and streaming writers agree; "
+            "oversize refused before reading, EOF inside a frame is UnexpectedEof.", E1T + " (chunkings enumerated, contents symbolic)"),
+    "C08": ("E1 kani-cbmc", "9.3 C08", "ControlMessageType numbering equals the protocol table in both directions for all 256 byte values; every structured variant "
+            "serialises (to_term and into_term) with the protocol's tag, arity and field order for symbolic field values. from_term is outside.", E1T),
+    "C09": ("E1 kani-cbmc", "9.3 C09", "FragmentAssembler on sequences of 1..3 one-byte fragments with symbolic bytes and sequence ids, every arrival permutation, "
+            "duplicates, out-of-range ids, early continuations and two interleaved sequences: nothing until the last missing fragment, then the "
+            "original bytes in the peer's order, completed sequences removed.", E1T),
+    "C10": ("E1 kani-cbmc", "9.3 C10", "Chain: decoding LOCAL_EXT keeps exactly the bytes after the tag on the identifier; encoding an identifier with preserved bytes "
+            "replays them byte-for-byte, also after clone / borrowed round trip / inside a tuple (all fields and hash bytes symbolic).", E1T),
+    "C13": ("E1 kani-cbmc", "9.3 C13", "decode_borrowed vs decode on the reference encodings of the C01 shapes and on every proper prefix (symbolic cut): acceptance "
+            "agrees, to_owned() has the same variant and denotes the same value, error offsets lie within the input.", E1T),
+    "C15": ("E1 kani-cbmc", "9.3 C15", "from_term(to_term(v)) == v for all values of i8..i64, u8..u64, f32, f64, bool, char, (), Option<i64>, (i64,u8); wire trip: "
+            "reference bytes of the value's width class -> real decoder -> real deserializer must give the value back.", E1T),
+})
 NA = {
+    "C06": "the receive dispatch is inlined in `async fn Connection::receive_message` over FramedTransport::read (tokio net + timer): any harness "
+           "from which it is reachable makes Kani's compiler fail (runtime-context thread-local -> catch_unwind), and an async stub of the "
+           "transport cannot be constructed outside tokio; the synchronous components it calls are covered by C02 (fragment headers), C09 "
+           "(assembler) and C01/C03 (terms), but exactly-once/in-order delivery across calls is not decidable with this technique here",
+    "C14": "the distribution-header writer keys HashSet<&Atom>/HashMap<&Atom,u8> by atoms (SipHash over symbolic strings, iteration order) and the "
+           "reader mutates a 256-slot HashMap cache across messages; harnesses over these did not finish under CBMC within the budget of this round",
     "C07": "frame assembly is inline in async fns writing to a concrete tokio OwnedWriteHalf; no seam a symbolic executor can observe; "
            "atomicity under concurrent senders is tokio-Mutex scheduling (Kani has no concurrency, no sockets)",
     "C17": "RPC correlation lives in async fns over DashMap/oneshot/timeout and a spawned receiver task on TCP; quantifies over task "
@@ -43,6 +79,8 @@ def main():
     extra = json.load(open(os.path.join(V, "tools", "manifest_extra.json"))) if os.path.exists(os.path.join(V, "tools", "manifest_extra.json")) else {}
     claimed = dict(CLAIMED)
     claimed.update({k: tuple(v) for k, v in extra.get("claimed", {}).items()})
+    # only properties whose timings are calibrated (i.e. whose check has been run to completion here) are registered
+    claimed = {k: v for k, v in claimed.items() if k == "C16" or os.path.exists(os.path.join(V, "driver", "timings", k + ".json"))}
     na = dict(NA)
     na.update(extra.get("not_applicable", {}))
     checks = []
